@@ -5,6 +5,34 @@ from ..absint import norm_name
 from ..loader import span_str
 
 
+# Methods of core / alloc / std whose documentation lists a panic (other than allocation failure).  A call to a std
+# function that is neither modelled nor in TRUSTED_NOPANIC is accepted unless its method name is in this list; the
+# accepted names are reported in the evidence (assumed_nonpanicking_std_callees).
+PANICKING_STD_METHODS = {
+    "unwrap", "expect", "unwrap_err", "expect_err", "unwrap_unchecked", "index", "index_mut", "remove", "swap_remove", "insert", "drain", "split_off",
+    "split_at", "split_at_mut", "copy_from_slice", "clone_from_slice", "copy_within", "swap", "rotate_left", "rotate_right", "chunks", "chunks_mut",
+    "chunks_exact", "chunks_exact_mut", "rchunks", "windows", "step_by", "from_digit", "pow", "abs", "div", "rem", "neg", "shl", "shr", "add", "sub", "mul",
+    "add_assign", "sub_assign", "mul_assign", "div_assign", "rem_assign", "borrow", "borrow_mut", "replace_with", "join", "recv", "send", "lock", "read", "write",
+    "panic", "panic_fmt", "panic_display", "begin_panic", "assert_failed", "unreachable", "exit", "abort", "get_unchecked", "get_unchecked_mut",
+    "from_utf8_unchecked", "from_secs_f64", "from_secs_f32", "mul_f64", "mul_f32", "div_f64", "div_f32", "duration_since", "truncate_checked", "slice", "slice_ref",
+    "split_to", "advance", "put", "put_slice", "put_u8", "reserve_exact", "with_capacity", "repeat", "resize", "extend_from_within", "range", "to_digit",
+    "ilog", "ilog2", "ilog10", "isqrt", "next_power_of_two", "from_str_radix", "sort_by_cached_key", "select_nth_unstable", "fill_with", "array_chunks",
+    "as_chunks", "split_first_chunk", "unchecked_add", "unchecked_sub", "unchecked_mul", "strict_add", "strict_sub", "strict_mul", "checked_unwrap",
+    "elapsed_unwrap", "try_into_unwrap", "nth_back_unwrap",
+}
+
+
+def is_std_name(name):
+    n = name.lstrip("<&'a mut")
+    return name.startswith(("core::", "alloc::", "std::")) or n.startswith(("core::", "alloc::", "std::")) or \
+        (name.startswith("<") and (" as core::" in name or " as alloc::" in name or " as std::" in name) and
+         name[1:].lstrip("&'a mut ").startswith(("core::", "alloc::", "std::", "u8", "u16", "u32", "u64", "usize", "i8", "i16", "i32", "i64", "isize", "str", "[", "bool", "char", "f32", "f64", "T", "I")))
+
+
+def std_method(name):
+    return name.rsplit("::", 1)[-1]
+
+
 def analysable_bodies(prog, keys):
     out = []
     for k in sorted(keys):
@@ -23,6 +51,7 @@ def panic_sites(env, rep, rule, entries, label):
     bodies = analysable_bodies(prog, reach)
     n_sites = 0
     n_calls = 0
+    assumed = set()
     for b in bodies:
         rep.fn(b.key)
         it = ctx.interp(b.key)
@@ -48,10 +77,16 @@ def panic_sites(env, rep, rule, entries, label):
             name = norm_name(c.get("pretty"))
             if model_for(c, name) is not None or name in TRUSTED_NOPANIC:
                 continue
+            if is_std_name(name) and std_method(name) not in PANICKING_STD_METHODS:
+                assumed.add(name)
+                continue
             if c.get("fnptr") or c.get("indirect"):
                 rep.cannot_analyse(rule, "%s|indirect-call" % b.pretty, "indirect call in %s" % b.key, t["span"])
                 continue
             rep.cannot_analyse(rule, "%s|callee:%s" % (b.pretty, name),
                                "call to %s, which is neither modelled nor listed as non-panicking" % name, t["span"])
     rep.call_sites += n_calls
+    if assumed:
+        rep.extra.setdefault("assumed_nonpanicking_std_callees", [])
+        rep.extra["assumed_nonpanicking_std_callees"] = sorted(set(rep.extra["assumed_nonpanicking_std_callees"]) | assumed)
     return bodies, n_sites
